@@ -6,6 +6,7 @@ package c02
 
 import (
 	"fmt"
+	"strings"
 	"testing"
 
 	"github.com/cockroachdb/errors"
@@ -63,11 +64,19 @@ func draw(t *rapid.T) *pbt.Case {
 // transfer sends b through stage i (knowing or unknowing intermediary)
 // and returns the bytes that leave that process.
 func transfer(c *pbt.Case, i int, b []byte) []byte {
+	out, _ := transferMid(c, i, b)
+	return out
+}
+
+// transferMid also returns the error as the intermediary of stage i
+// holds it (nil for a knowing stage).
+func transferMid(c *pbt.Case, i int, b []byte) (out []byte, mid error) {
 	u := c.L[fmt.Sprintf("unknown%d", i)]
 	if len(u) == 0 {
-		return wire.Encode(wire.Decode(b))
+		return wire.Encode(wire.Decode(b)), nil
 	}
-	return wire.Through(b, u, nil)
+	out = wire.Through(b, u, func(m error) { mid = m })
+	return out, mid
 }
 
 func check(c *pbt.Case, r *pbt.R) {
@@ -105,6 +114,8 @@ func check(c *pbt.Case, r *pbt.R) {
 	k := c.Int("hops")
 	// e after hops 1..k (each evaluated at a knowing process).
 	es := make([]error, k+1)
+	mids := make([]error, k+1) // e as held by an unknowing intermediary
+	f14f15 := false
 	es[0] = e0
 	b := wire.Encode(e0)
 	unknowing := 0
@@ -112,8 +123,28 @@ func check(c *pbt.Case, r *pbt.R) {
 		if len(c.L[fmt.Sprintf("unknown%d", i)]) > 0 {
 			unknowing++
 		}
-		b = transfer(c, i, b)
+		b, mids[i] = transferMid(c, i, b)
 		es[i] = wire.Decode(b)
+		for _, f := range c.L[fmt.Sprintf("unknown%d", i)] {
+			// F14 / F15 (known findings of C04): a process that does not know
+			// barriers or gRPC status errors shows another text for them, and
+			// the mark contains the text. Is is not evaluated inside such a
+			// process (it is at every process after it).
+			if strings.HasSuffix(f, "barriers.barrierErr") || strings.Contains(f, "status.") {
+				// (and every later intermediary: the other text is baked into
+				// the messages that process re-encodes for enclosing layers)
+				f14f15 = true
+			}
+			// A process that does not know withMark cannot apply an explicit
+			// mark (it travels in that type's payload): nothing is claimed
+			// about Is inside such a process either.
+			if strings.HasSuffix(f, "markers.withMark") {
+				mids[i] = nil
+			}
+		}
+		if f14f15 {
+			mids[i] = nil
+		}
 	}
 	nonIdentityMatch, nearMiss := false, false
 	for _, rf := range refs {
@@ -145,6 +176,14 @@ func check(c *pbt.Case, r *pbt.R) {
 				r.Failf("Is panics after transfer", "hop %d: %v\n%s", i, p, desc())
 			} else if bi != b0 {
 				r.Failf(fmt.Sprintf("Is(e, r) changes when e is transferred: %v -> %v", b0, bi), "hop %d\n%s", i, desc())
+			}
+			// ... also inside a process that does not know e's types.
+			if mids[i] != nil {
+				if bm, p := obs.SafeIs(mids[i], ro); p != nil {
+					r.Failf("Is panics after transfer", "hop %d (at the unknowing process): %v\n%s", i, p, desc())
+				} else if bm != b0 && !(methodOnly && !bm) {
+					r.Failf(fmt.Sprintf("Is(e, r) changes when e is transferred: %v -> %v", b0, bm), "hop %d, evaluated at the process that does not know the types\n%s", i, desc())
+				}
 			}
 			// IsAny agrees, also with a nil reference listed first.
 			if ia, p := obs.Try2(func() bool { return errors.IsAny(es[i], nil, ro) }); p != "" {
